@@ -6,19 +6,19 @@ package main
 func init() {
 	propInfo = map[string]propText{
 		"C01": {
-			"every record a rewrite/recover/migrate loop reads is written unchanged or (delete only) reported, never dropped or altered in between, and its index item is derived from the same record and the right position (R11); the bytes that carry key, value and time are laid out and read back per the documented layout (R9); segment file names sort numerically and temp files are never mistaken for segments (R13); a replacement segment is in place before the original is removed (R2 O3).",
+			"every record a rewrite/recover/migrate loop reads is written unchanged or (delete only) reported, never dropped or altered in between, and its index item is derived from the same record and the right position (R11); the bytes that carry key, value and time are laid out and read back per the documented layout (R9); segment file names sort numerically and temp files are never mistaken for segments (R13); a replacement segment is in place before the original is removed (R2 O3). On the publish path a message's time is stored as given, the only replacement being time.Now() for a zero time (R33); Segment values, which are compared with == to decide whether a rewrite replaces its source in place, are always built from a verbatim directory string (R34); each record of a batch is followed by its index item before the next record is written (R11 L4).",
 			"equality with a reference list after arbitrary histories; roll-over/reopen bookkeeping; anything value-level."},
 		"C02": {
-			"the encoded offset is always the assigned one (base+i, base read from the head's atomic next-offset under the writer lock), never the caller's; the atomic is stored only at construction and at append, from last.Offset+1 (R17, R3); an emptied head is replaced by an empty successor named after the next offset before it is removed (R2 O4); a newly created segment is only ever named 0 or after the live next offset (R17e); zero-padded names (R13).",
+			"the encoded offset is always the assigned one (base+i, base read from the head's atomic next-offset under the writer lock), never the caller's; the atomic is stored only at construction and at append, from last.Offset+1 (R17, R3); an emptied head is replaced by an empty successor named after the next offset before it is removed (R2 O4); a newly created segment is only ever named 0 or after the live next offset (R17e); zero-padded names (R13). Check/Recover accept a stored index only if it equals the whole index derived from the log, so the next offset taken from it never lags the log (R11 L7).",
 			"non-reuse over delete/reopen histories in general (which head-delete branch applies is value-level)."},
 		"C03": {
 			"the identity-compared sentinels that implement 'after the end of a closed segment continue in the next one' and 'an empty/exhausted head means caught up' arrive unwrapped and are still produced (R6).",
 			"the binary searches, contiguity, maxCount, next-offset arithmetic: all quantify over offsets and hole patterns."},
 		"C04": {
-			"every sentinel that Get can return classifies under ErrNotFound/ErrInvalidOffset as documented (R7a); nothing outside the public taxonomy escapes from any Log method (R7b); the after-end to not-found mapping for non-head segments still sees its sentinel (R6).",
-			"'iff live'; agreement with Consume; Get(OffsetNewest) on an empty head (value-level, invisible to these rules)."},
+			"every sentinel that Get can return classifies under ErrNotFound/ErrInvalidOffset as documented (R7a); nothing outside the public taxonomy escapes from any Log method (R7b); the after-end to not-found mapping for non-head segments still sees its sentinel (R6). Log.Get asks the picked segment for exactly the offset it was asked for (R28) and classifies that segment's empty outcome before returning, so an empty head does not answer for the whole log (R35); no branch depends on the wall clock (R30).",
+			"'iff live'; agreement with Consume; which message a relative offset resolves to beyond the empty-head case."},
 		"C05": {
-			"the order of the file-system steps inside Override, Migrate, the rebase and empty-head paths, and stale deterministic temp files (R2 O1-O5); Recover's scan leaves its loop only on EOF / corruption / hard error (R11 L3); a torn record header is corruption, not EOF (R10c); temp logs are fsynced before rename (R1 I4-I6).",
+			"the order of the file-system steps inside Override, Migrate, the rebase and empty-head paths, and stale deterministic temp files (R2 O1-O5); Recover's scan leaves its loop only on EOF / corruption / hard error (R11 L3); a torn record header is corruption, not EOF (R10c); temp logs are fsynced before rename (R1 I4-I6). The live log name is never removed or renamed away before its replacement is renamed onto it (R2 O8); once Recover's scan ended at corruption every success return is preceded by that rename (R2 O9); an index whose size is not a whole number of items is rejected, not rounded (R10g).",
 			"that the directory after every crash point reopens consistently, in particular the window between Rename and Remove of a rebased segment (a protocol gap this technique cannot judge)."},
 		"C06": {
 			"R1 I1-I7: on every path, under the relevant options, the head log is fsynced after its last write before Sync / Publish(AutoSync) / Close acknowledge; the old head's log and index are fsynced before a new head exists; rewritten, recovered and migrated logs and every whole-index write are fsynced before they are renamed in / returned; only rewrite products are renamed in.",
@@ -27,19 +27,19 @@ func init() {
 			"decoders reject before they return (CRC, trailer, bounded sizes) and classify a torn header as corruption (R10a-c); the Recover/Check/reindex scans derive each index item from the record they just read at the position they read it, and compare/write exactly that slice (R11 L2, L3); a missing index is tolerated by Check/Recover (R16).",
 			"'precisely the longest valid prefix', byte-for-byte no-op, the iff of Check."},
 		"C08": {
-			"common-guard discipline for every shared mutable field of the module (R3 lockset); acyclic lock order and no recursive read lock (R4); the unload refcount protocol (R5); re-validation of a head rewrite snapshot under the writer lock (R18); readers cannot hold a segment across its close (R20); a scan of the head segment's file outside the writer lock is bounded by a size captured under it (R21).",
+			"common-guard discipline for every shared mutable field of the module (R3 lockset); acyclic lock order and no recursive read lock (R4); the unload refcount protocol (R5); re-validation of a head rewrite snapshot under the writer lock (R18); readers cannot hold a segment across its close (R20); a scan of the head segment's file outside the writer lock is bounded by a size captured under it (R21). A batch becomes visible in the in-memory index once, after all of its records are written (R11 L4); in every reading context the next-offset atomic is loaded before the state it bounds (call-level R3c); the lazy rebuild of a segment's index file runs under the reader's index lock (R16c); find-rewrite-swap of a delete is one critical section of the delete lock (R18b).",
 			"linearizability of results; Stat's allowed anomaly; races in dependencies."},
 		"C09": {
-			"a hash candidate is returned only after a byte comparison with the caller's key (R8 K1); key tree and item list grow together (R8 K2); the first-hit loops over segments and over candidates run newest-first (R8 K3); the segment walk still sees ErrKeyNotFound (R6); ErrNoIndex guard (R7c).",
+			"a hash candidate is returned only after a byte comparison with the caller's key (R8 K1); key tree and item list grow together (R8 K2); the first-hit loops over segments and over candidates run newest-first (R8 K3); the segment walk still sees ErrKeyNotFound (R6); ErrNoIndex guard (R7c). The key cursor loads the next offset before looking the key up, so a concurrent publish is never skipped (call-level R3c); every outcome of the per-segment key lookup is classified by the loop over the segments (R35).",
 			"that the lists are in fact ascending by offset (C01/C02); behaviour after deletes; ConsumeByKey's cursor arithmetic."},
 		"C10": {
-			"the before-start/after-end sentinels that drive the segment walk arrive unwrapped and alive, and never escape to the caller (R6, R7b); ErrNoIndex guard (R7c).",
-			"everything about which message is found (equal timestamps across a boundary, empty head: value-level, invisible here)."},
+			"the before-start/after-end sentinels that drive the segment walk arrive unwrapped and alive, and never escape to the caller (R6, R7b); ErrNoIndex guard (R7c). Every outcome sentinel the pure time lookup can report (before start, after end, index empty) is classified inside the loop over the segments, so an empty head does not end the search (R35); no branch of the lookup depends on the wall clock (R30); the index timestamp is max(UnixMicro(time), previous) on every path (R29); message times are stored as given (R33).",
+			"everything about which message is found (the binary search, equal timestamps across a segment boundary, what each classified outcome then does: value-level, invisible here)."},
 		"C11": {
-			"every consumer of an index file tolerates its absence or runs where it is ensured (R16); every path that replaces a log file removes/rewrites the index in a safe order and derives it from the new file's positions (R2 O1/O2, R11 L2); writer and reader of the four item layouts agree (R9); whole-index writes are fsynced (R1 I7).",
+			"every consumer of an index file tolerates its absence or runs where it is ensured (R16); every path that replaces a log file removes/rewrites the index in a safe order and derives it from the new file's positions (R2 O1/O2, R11 L2); writer and reader of the four item layouts agree (R9); whole-index writes are fsynced (R1 I7). In the publish loop every record's index item is written in the same iteration (R11 L4); every index-deriving loop seeds the carried timestamp like its siblings (R11 L6); stored and derived index are compared whole (R11 L7); the lazy rebuild is serialised by the index lock (R16c); a torn trailing item makes the index invalid instead of being ignored (R10g).",
 			"item-by-item equality after arbitrary histories."},
 		"C12": {
-			"in the rewrite loop 'deleted' and 'kept' partition the records read, with 'deleted' only under membership in the caller's set (R11 L1); relative offsets rejected, empty set is a no-op before any lock (R7c); a head snapshot is re-validated before it replaces the head (R18); errSegmentChanged still reaches its comparison (R6).",
+			"in the rewrite loop 'deleted' and 'kept' partition the records read, with 'deleted' only under membership in the caller's set (R11 L1); relative offsets rejected, empty set is a no-op before any lock (R7c); a head snapshot is re-validated before it replaces the head (R18); errSegmentChanged still reaches its comparison (R6). A Segment built for a rewrite has the directory of its source verbatim, so 'same base offset' is recognised (R34); deletes are serialised by the delete lock across find, rewrite and swap (R18b); Segment.Remove removes the log on every success path (R2 O7).",
 			"deletedSize arithmetic; the multi-pass driver; idempotence."},
 		"C13": {
 			"R9: encoder = decoder = documented layout for V1/V2 records, file headers and the four index item layouts; CRC table and coverage; Size(); key hash; R19: every version switch is exhaustive.",
